@@ -8,7 +8,7 @@ TOOLS=$(dirname $(rustc +nightly --print target-libdir))/bin
 rm -rf $OUT; mkdir -p $OUT/raw
 cd /verif/harness
 export CARGO_NET_OFFLINE=true
-CARGO_TARGET_DIR=$OUT/target RUSTFLAGS="-C instrument-coverage" cargo +nightly build --release --offline 2>&1 | tail -2
+CARGO_TARGET_DIR=$OUT/target RUSTFLAGS="-C instrument-coverage" cargo build --release --offline 2>&1 | tail -2
 BIN=$OUT/target/release/acb_verif_harness
 python3 - "$BIN" "$OUT" <<'PY'
 import json, glob, os, subprocess, sys
